@@ -5,7 +5,7 @@
    should_process, readable with a recognised language), whose faithfulness is established by the
    correspondence run of tools/props/c01.py against an independent re-computation from the project tree. *)
 From Coq Require Import NArith List Bool.
-From SG Require Import Check.Results Check.BMap Check.ExitCode Check.Ratchet Check.Baseline Check.Pipeline Check.Proofs_C01 Check.Compose.
+From SG Require Import Check.Results Check.BMap Check.ExitCode Check.Ratchet Check.Baseline Check.Pipeline Check.Proofs_C01 Check.Compose Check.ScanExclude Check.Proofs_ScanExclude.
 Import ListNotations.
 Open Scope N_scope.
 
@@ -108,6 +108,36 @@ Theorem C01_composed_nothing_else_reported : forall cfg a fl ins sres dirs disk 
               T.should_process ck (fi_ev f) (fi_mv f) (fi_ext f) = true /\ fi_stats f <> None.
 Proof. exact composed_unselected_silent. Qed.
 Print Assumptions C01_composed_nothing_else_reported.
+
+(* ---- the [in_scope] fact and the scanner excludes: the two walkers read the same patterns differently ----
+   plain scanner (no [structure] section): excluded iff a pattern matches the normalised path;
+   structure-aware scanner: also when a pattern matches the bare name, or a directory's name equals the last
+   literal component of a pattern ending in /** (Check/ScanExclude.v; matcher verdicts are oracle data).
+   The second reading never keeps what the first drops ... *)
+Theorem C01_structure_scanner_excludes_complete :
+  forall (pat entry : Type) (is_dir : entry -> bool) (on_path on_name name_fallback : pat -> entry -> bool) ps e,
+  plain_excluded pat entry on_path ps e = true ->
+  struct_excluded pat entry is_dir on_path on_name name_fallback ps e = true.
+Proof. exact struct_complete. Qed.
+Print Assumptions C01_structure_scanner_excludes_complete.
+
+(* ... but it drops entries no pattern matches (known finding K01_basename_exclude: docs/build/** prunes
+   src/build, gen.rs drops src/gen.rs): the full statement is refuted by the witness ... *)
+Theorem C01_scanner_excludes_agree_refuted :
+  exists ps e, struct_excluded mpat mentry e_dir m_on_path m_on_name m_name_fallback ps e
+               <> plain_excluded mpat mentry m_on_path ps e.
+Proof. exact two_readings_differ. Qed.
+Print Assumptions C01_scanner_excludes_agree_refuted.
+
+(* ... and outside that class whatever it drops is matched on its path or is a directory whose whole content
+   a pattern covers (so no countable file is lost) *)
+Theorem C01_structure_scanner_excludes_sound_modulo_known :
+  forall (pat entry : Type) (is_dir : entry -> bool) (on_path on_name name_fallback under_dir : pat -> entry -> bool) ps e,
+  ~ KnownBasename pat entry is_dir on_path on_name name_fallback under_dir ps e ->
+  struct_excluded pat entry is_dir on_path on_name name_fallback ps e = true ->
+  plain_excluded pat entry on_path ps e = true \/ (is_dir e = true /\ exists p, In p ps /\ under_dir p e = true).
+Proof. exact struct_sound_modulo_known. Qed.
+Print Assumptions C01_structure_scanner_excludes_sound_modulo_known.
 
 (* verdict trichotomy used by spec_status *)
 Theorem C01_verdict_failed_iff : forall c lim w, verdict c lim w = Failed <-> lim < c.
